@@ -19,7 +19,7 @@ a call of another library operator the hand-model function of the same role (`El
 import os, re, sys, json
 sys.path.insert(0, os.path.dirname(os.path.abspath(__file__)))
 import gen_layout as GL
-from gen_layout import TranslateError, paren
+from gen_layout import TranslateError, paren, canon2
 
 HERE = GL.HERE
 OUT = os.path.join(HERE, "lean/MultiModel/Gen/StoreGen.lean")
@@ -79,6 +79,8 @@ class C:
             return ("bool", e[1])
         if k == "id" and e[1] in self.extra:
             return self.extra[e[1]]
+        if k == "id" and e[1] == "l_" and self.kind == "erange":
+            return ("erlay", self.this)
         if k == "call":
             fn, args = e[1], e[2]
             if fn[0] == "mem":
@@ -124,13 +126,16 @@ class C:
         if k in ("==", "!="):
             a, b = self.ev(e[1], m), self.ev(e[2], m)
             if a[0] == "exts" and b[0] == "exts":
-                t = f"(Exts.eqv {a[1]} {b[1]})"
+                x, y = canon2(a[1], b[1])
+                t = f"(Exts.eqv {x} {y})"
                 return ("bool", t if k == "==" else f"(!{t})")
             if a[0] == "ext" and b[0] == "ext":
-                t = f"(Ext.eqv {a[1]} {b[1]})"
+                x, y = canon2(a[1], b[1])
+                t = f"(Ext.eqv {x} {y})"
                 return ("bool", t if k == "==" else f"(!{t})")
             if a[0] == "int" and b[0] == "int":
-                return ("bool", f"({a[1]} {k} {b[1]})")
+                x, y = canon2(a[1], b[1])
+                return ("bool", f"({x} {k} {y})")
             if a[0] == "er" and b[0] == "er":
                 return ("obool", f"(ElemRange.{'eq' if k == '==' else 'ne'} {a[1]} {b[1]} {m})")
             if a[0] == "obj" and b[0] == "obj" and self.kind == "view":
@@ -138,7 +143,9 @@ class C:
         if k in ("<", ">"):
             a, b = self.ev(e[1], m), self.ev(e[2], m)
             if a[0] == "int" and b[0] == "int":
-                return ("bool", f"(decide ({a[1]} {k} {b[1]}))")
+                if k == ">":
+                    a, b = b, a
+                return ("bool", f"(decide ({a[1]} < {b[1]}))")
             if k == ">":
                 raise TranslateError(f"{self.fname}: > on {a[0]}, {b[0]}")
             if a[0] == "obj" and b[0] == "obj" and self.kind == "view":
@@ -200,6 +207,10 @@ class C:
                 return ("it", f"{obj[1]}.end'")
             if name == "size" and not args:
                 return ("int", f"{obj[1]}.size")
+        if obj[0] == "erlay" and name in ("is_empty", "empty") and not args:
+            return ("bool", f"{obj[1]}.isEmpty")     # elements_range_t::is_empty() is `l_.is_empty()`
+        if obj[0] == "erlay" and name == "num_elements" and not args:
+            return ("int", f"{obj[1]}.size")
         if obj[0] == "ext" and name == "first" and not args:
             return ("int", f"{obj[1]}.first")
         if obj[0] == "vals":
@@ -263,9 +274,9 @@ class C:
         if k == "if":
             _, c, th, el, cx, ln = st
             cs = self.strip(c)
-            if cs[0] == "==" and len(cs) == 3 and {self.tag(cs[1]), self.tag(cs[2])} == {"this", "&other"}:
+            if cs[0] in ("==", "!=") and len(cs) == 3 and {self.tag(cs[1]), self.tag(cs[2])} == {"this", "&other"}:
                 self.same_object = True
-                cond = "sameObject"
+                cond = "sameObject" if cs[0] == "==" else "(!sameObject)"
             else:
                 cv = self.ev(c, m)
                 if cv[0] != "bool":
@@ -285,6 +296,10 @@ class C:
                     return v[1]
                 raise TranslateError(f"{self.fname}: return of {v[0]}")
             return f"some {m}"
+        if k == "decl" and st[3] in ("copy", "init") and len(st[4]) == 1:
+            self.extra = dict(self.extra)
+            self.extra[st[1]] = self.ev(st[4][0], m)
+            return self.compile(rest, m, depth, boolret)
         if k == "assign" and st[1] == "=":
             l, r = self.ev(st[2], m), self.ev(st[3], m)
             if l[0] == "er" and r[0] == "er":
